@@ -327,6 +327,21 @@ Definition grid_initialize (xinf xsup yinf ysup : t) (nx ny : nat) {np} (st : M 
                          (grid_pairs nx ny) st in
     Some (st', mconst O np 1 (sopp S (sln S (sofnat S np)))).
 
+(* initialize(particles) on a particle set with ANY number [r] of state rows, both checks in the
+   code's order: the particle count, then "the grid is laid out on states (x, vx, y, vy)"
+   (particles.state().rows() != 4 -> false).  For r = 4 this is [grid_initialize] (C16_ProofsSM). *)
+Definition grid_initialize_rows (xinf xsup yinf ysup : t) (nx ny : nat) {r np} (st : M O r np) (w : M O np 1)
+  : option (M O r np * M O np 1) :=
+  if negb (np =? nx * ny) then None
+  else if negb (r =? 4) then None
+  else
+    let dx := ssub S xsup xinf in
+    let dy := ssub S ysup yinf in
+    let st' := fold_left (fun A ij => set_col A (fst ij * ny + snd ij)
+                                              (grid_point xinf dx yinf dy nx ny (fst ij) (snd ij)))
+                         (grid_pairs nx ny) st in
+    Some (st', mconst O np 1 (sopp S (sln S (sofnat S np)))).
+
 End Models.
 
 Arguments wna_F2 {_}. Arguments wna_Q2 {_}. Arguments blocks {_}.
@@ -345,3 +360,4 @@ Arguments sensor_freeze {_ d m}. Arguments sensor_step {_ d m}. Arguments sensor
 Arguments sabs1 {_}. Arguments argmax_from {_}. Arguments row_argmax_abs {_ m n}. Arguments sensor_descriptions {_ m n}.
 Arguments set_col {_ r c}. Arguments grid_coord {_}. Arguments grid_point {_}.
 Arguments grid_initialize {_} xinf xsup yinf ysup nx ny {np}.
+Arguments grid_initialize_rows {_} xinf xsup yinf ysup nx ny {r np}.
